@@ -819,7 +819,9 @@ func oracle(c *lib.Ctx, id string, in c17in, out runOut) {
 				return
 			}
 			latest = int64(g.LatestSeqNr)
-			if p := post.pub; p != nil {
+			// generate is only reachable once the generator is started (addSegmentData reports no new number
+			// before); a direct call before start in a random operation sequence is compared with the model only
+			if p := post.pub; p != nil && g.Started {
 				if p.First > p.Last {
 					fail(opi, "mpd:empty-range", fmt.Sprintf("published first %d > last %d", p.First, p.Last))
 					return
